@@ -25,6 +25,7 @@ Definition want_step (w : want) (o : hop) : want :=
   | HResetBody => mkWant (w_status w) (WBytes [])
   | HSetBodyStream n s => mkWant (w_status w) (WStream n s)
   | HError msg code => mkWant (norm_status code) (WBytes msg)
+  | HReset => want0
   | _ => w
   end.
 Definition want_of (prog : list hop) : want := fold_left want_step prog want0.
@@ -86,7 +87,7 @@ Definition fwant_step (w : fwant) (o : hop) : fwant :=
   | HHdr RODisableNormalizing => mkFW (f_m w) true (f_ok w)
   | HHdr ROEnableNormalizing => mkFW (f_m w) false (f_ok w)
   | HDel k => mkFW (sstep HResp (f_nonorm w) (f_m w) (SDel k)) (f_nonorm w) (f_ok w)
-  | HError _ _ => mkFW [] false (f_ok w)                 (* Response.Reset *)
+  | HError _ _ | HReset => mkFW [] false (f_ok w)        (* Response.Reset *)
   | _ => w
   end.
 Definition fwant_of (nonorm0 : bool) (prog : list hop) : fwant := fold_left fwant_step prog (mkFW [] nonorm0 true).
